@@ -901,6 +901,23 @@ def _inner_loop_between(loop, node):
     return False
 
 
+def _reader_locals(repo, rf):
+    """locals of rf that hold the body's BufferReader: bound to the constructor, or to a factory helper of the class that
+    hands one back (`reader = self._make_body_reader(msg, raw_body)` with `return se.BufferReader("<", raw_body)` inside)"""
+    readers = {st.path for st in stores(rf.node, into_defs=False) if st.kind == "assign" and isinstance(st.value, ast.Call)
+               and (call_attr(st.value) or "").endswith("BufferReader")}
+    if not readers:
+        for st in stores(rf.node, into_defs=False):
+            v = st.value
+            if st.kind == "assign" and isinstance(v, ast.Call) and isinstance(v.func, ast.Attribute) and \
+                    isinstance(v.func.value, ast.Name) and v.func.value.id in ("self", "cls") and rf.cls is not None:
+                m_ = repo.lookup_method(rf.cls, v.func.attr)
+                if m_ is not None and any(isinstance(r, ast.Return) and isinstance(r.value, ast.Call) and
+                                          (call_attr(r.value) or "").endswith("BufferReader") for r in walk(m_.node)):
+                    readers.add(st.path)
+    return readers
+
+
 def r5(ctx):
     repo = ctx.repo
     ctx.rule("C02.R5", "trailing-block tolerance agrees: reader stops at end-of-data before a block and records every "
@@ -915,8 +932,7 @@ def r5(ctx):
     rv, wv = ap(rloop.target), ap(wloop.target)
 
     # ---- reader
-    readers = {st.path for st in stores(rf.node, into_defs=False) if st.kind == "assign" and isinstance(st.value, ast.Call)
-               and (call_attr(st.value) or "").endswith("BufferReader")}
+    readers = _reader_locals(repo, rf)
     ctx.require(len(readers) >= 1, f"{rf.qual}: no BufferReader local")
     consuming = [c for c in calls(rloop) if call_attr(c) in ("read", "read_bytes", "_parse_var")]
     first_read = min([_top_index(rloop, c) for c in consuming] or [len(rloop.body)])
@@ -1439,8 +1455,7 @@ def r10(ctx):
     ctx.require(len(rl) == 1, f"expected one template block loop in the body parser, found {len(rl)}")
     rf, rloop = rl[0]
     rm = _msg_param(rf, ctx)
-    readers = {st.path for st in stores(rf.node, into_defs=False) if st.kind == "assign" and isinstance(st.value, ast.Call)
-               and (call_attr(st.value) or "").endswith("BufferReader")}
+    readers = _reader_locals(repo, rf)
     kept = []
     for st in stores(rf.node, into_defs=False):
         if st.kind == "assign" and st.path.startswith(rm + ".") and st.value is not None and st.node.lineno > rloop.lineno:
